@@ -2,8 +2,10 @@ package props
 
 import (
 	"bytes"
+	"crypto/tls"
 	"encoding/binary"
 	"fmt"
+	"io"
 	"net"
 	"sort"
 	"strings"
@@ -427,6 +429,88 @@ func runC11(c *ev.Case, ctx *lib.Ctx, al []appAVP, cc c11Case) {
 	}
 }
 
+// runC11TLS: the same decision when the peer connected over TLS (the connection handed to the
+// state machine reports a TLS state): what the transport is does not change which CERs are
+// acceptable - a CER that requires in-band security is still refused with 5017.
+func runC11TLS(c *ev.Case, ctx *lib.Ctx, inband []uint32, app uint32) {
+	sig := func(op string) ev.Sig {
+		return ev.Sig{"op": op, "ipv6_endpoint": false, "configured_addresses": 1, "transport": "tls"}
+	}
+	cfg, err := c15TLSConfig()
+	if err != nil {
+		c.Fail(sig("setup"), nil, nil, "certificate: %v", err)
+		return
+	}
+	settings := &sm.Settings{OriginHost: "srv.local", OriginRealm: "realm.local", VendorID: 13, ProductName: "verif",
+		HostIPAddresses: []datatype.Address{datatype.Address(net.IP{192, 0, 2, 1})}}
+	machine := sm.New(settings)
+	ln := memnet.NewListener()
+	srv := &diam.Server{Handler: machine, Dict: ctx.Parser}
+	go srv.Serve(ln)
+	defer ln.Close()
+	sc, cc := net.Pipe()
+	ln.Offer(tls.Server(sc, cfg))
+	cli := tls.Client(cc, &tls.Config{InsecureSkipVerify: true})
+	defer cli.Close()
+	avps := append(peer.Identity("client.example", "example"), peer.Addr4(peer.HostIP, 10, 9, 8, 7), peer.U32(peer.VendorID, 99), peer.Str(peer.ProductName, refcodec.UTF8String, "peer"))
+	for _, v := range inband {
+		avps = append(avps, peer.U32(peer.InbandSec, v))
+	}
+	avps = append(avps, peer.U32(peer.AuthApp, app))
+	cer := peer.Msg(0x80, peer.CodeCE, 0, 5, 6, avps...)
+	type res struct {
+		cea []byte
+		err error
+	}
+	done := make(chan res, 1)
+	go func() {
+		if _, err := cli.Write(cer); err != nil {
+			done <- res{nil, err}
+			return
+		}
+		hdr := make([]byte, 20)
+		if _, err := io.ReadFull(cli, hdr); err != nil {
+			done <- res{nil, err}
+			return
+		}
+		body := make([]byte, int(hdr[1])<<16|int(hdr[2])<<8|int(hdr[3])-20)
+		_, err := io.ReadFull(cli, body)
+		done <- res{append(hdr, body...), err}
+	}()
+	r := <-done
+	synctest.Wait()
+	requires := len(inband) > 0
+	for _, v := range inband {
+		if v == 0 {
+			requires = false
+		}
+	}
+	accept := !requires && ctx.Set.SupportsApp(app, "auth")
+	desc := fmt.Sprintf("CER over TLS, Inband-Security-Id %v, Auth-Application-Id %d", inband, app)
+	if r.err != nil || r.cea == nil {
+		c.Fail(sig("cea-count"), cer, nil, "no CEA was read back (%v); %s", r.err, desc)
+		return
+	}
+	rcs := peer.FindU32(r.cea, peer.ResultCode)
+	if len(rcs) != 1 {
+		c.Fail(sig("cea-result-code"), r.cea, nil, "CEA has %d Result-Code AVPs; %s", len(rcs), desc)
+		return
+	}
+	switch {
+	case accept && rcs[0] != 2001:
+		c.Fail(sig("rejected-acceptable-cer"), r.cea, nil, "an acceptable CER was answered with Result-Code %d; %s", rcs[0], desc)
+	case !accept && rcs[0] == 2001:
+		c.Fail(sig("accepted-unacceptable-cer"), r.cea, nil, "a CER that must be refused (requires in-band security: %v) was answered with success; %s", requires, desc)
+	case !accept && requires && rcs[0] != 5017 && rcs[0] != 5010:
+		c.Fail(sig("wrong-failure-code"), r.cea, nil, "refused with Result-Code %d; %s", rcs[0], desc)
+	case accept:
+		c.Event("accepted", 1)
+	default:
+		c.Event("rejected", 1)
+	}
+	c.Event("cers", 1)
+}
+
 func keysU32(m map[uint32]bool) []uint32 {
 	var k []uint32
 	for x := range m {
@@ -747,6 +831,16 @@ func TestC11(t *testing.T) {
 			c.Fail(ev.Sig{"op": "bubble-leak"}, nil, nil, "goroutines left blocked after the scenario: %s; %s", leak, cc.String(alP))
 		}
 	})
+	tlsCases := [][]uint32{nil, {0}, {1}, {1, 0}, {0, 1}, {2}, {1, 1}}
+	rec.Suite("over-tls", len(tlsCases)*2, func(c *ev.Case) {
+		inband := tlsCases[c.I%len(tlsCases)]
+		app := []uint32{4, 999}[c.I/len(tlsCases)]
+		c.Class("over-tls/inband=%v/app=%d", inband, app)
+		leak := runBubbleWD(t, rec, c, 60*time.Second, func() { runC11TLS(c, ctx, inband, app) })
+		if leak != "" && !c.Failed() {
+			c.Fail(ev.Sig{"op": "bubble-leak"}, nil, nil, "goroutines left blocked after the scenario: %s", leak)
+		}
+	})
 	al = alX
 	rec.Suite("random", rec.N(2000, 1000000), func(c *ev.Case) {
 		r := c.R
@@ -780,6 +874,9 @@ func TestC11Dict(t *testing.T) {
 		`<?xml version="1.0" encoding="UTF-8"?><diameter><application id="9001" type="acct" name="Two-Type-A"></application><application id="9002" type="auth" name="Only-Auth"></application></diameter>`,
 		`<?xml version="1.0" encoding="UTF-8"?><diameter><application id="9001" type="auth" name="Two-Type-B"></application><application id="9003" name="Untyped"></application></diameter>`,
 	}
+	// a state machine created before the dictionary grows (the applications below are loaded
+	// afterwards): its decisions follow the local dictionary as it is when the CER arrives
+	early := sm.New(&sm.Settings{OriginHost: "srv.local", OriginRealm: "realm.local", VendorID: 13, ProductName: "verif"})
 	fs, err := lib.Embedded()
 	if err != nil {
 		t.Fatal(err)
@@ -815,6 +912,70 @@ func TestC11Dict(t *testing.T) {
 			seqs = append(seqs, []int{a, b})
 		}
 	}
+	rec.Suite("application-loaded-after-the-state-machine", 4, func(c *ev.Case) {
+		app := []uint32{9002, 9001, 4, 9002}[c.I]
+		also4 := c.I == 3
+		c.Class("loaded-after-sm-new/app=%d/with-app-4=%v", app, also4)
+		leak := runBubbleWD(t, rec, c, 60*time.Second, func() {
+			var mu sync.Mutex
+			var metas []*smpeer.Metadata
+			early.HandleIdx(diam.CommandIndex{AppID: 4, Code: 272, Request: true}, diam.HandlerFunc(func(dc diam.Conn, m *diam.Message) {
+				mu.Lock()
+				defer mu.Unlock()
+				if meta, ok := smpeer.FromContext(dc.Context()); ok {
+					metas = append(metas, meta)
+				}
+			}))
+			ln := memnet.NewListener()
+			srv := &diam.Server{Handler: early, Dict: dict.Default}
+			go srv.Serve(ln)
+			mc := memnet.NewConn()
+			mc.Local = memnet.Addr{Net: "tcp", Str: "198.51.100.7:3868"}
+			ln.Offer(mc)
+			defer func() {
+				mc.FeedEOF()
+				ln.Close()
+				synctest.Wait()
+			}()
+			avps := []*refcodec.Node{peer.Str(peer.OriginHost, refcodec.DiameterIdentity, "client.example"), peer.Str(peer.OriginRealm, refcodec.DiameterIdentity, "example"),
+				peer.Addr4(peer.HostIP, 10, 9, 9, 1), peer.U32(peer.VendorID, 99), peer.Str(peer.ProductName, refcodec.UTF8String, "peer"), peer.U32(peer.AuthApp, app)}
+			if also4 {
+				avps = append(avps, peer.U32(peer.AuthApp, 4))
+			}
+			mc.Feed(peer.Msg(0x80, peer.CodeCE, 0, 1, 2, avps...))
+			mc.Feed(peer.Msg(0xC0, 272, 4, 77, 78, peer.Str(peer.SessionID, refcodec.UTF8String, "s;1")))
+			synctest.Wait()
+			msgs, _ := peer.SplitMessages(mc.Written())
+			sig := func(op string) ev.Sig { return ev.Sig{"op": op, "suite": "loaded-after-sm-new"} }
+			if len(msgs) != 1 {
+				c.Fail(sig("cea-count"), nil, nil, "%d messages in reply to the CER", len(msgs))
+				return
+			}
+			if rc := peer.FindU32(msgs[0], peer.ResultCode); len(rc) != 1 || rc[0] != 2001 || mc.CloseCount() != 0 {
+				c.Fail(sig("rejected-acceptable-cer"), msgs[0], nil, "the local dictionary supports authentication application %d (loaded after sm.New): the CER was answered with Result-Code %v, connection closed %d time(s)", app, rc, mc.CloseCount())
+				return
+			}
+			mu.Lock()
+			defer mu.Unlock()
+			has := false
+			if len(metas) == 1 {
+				for _, a := range metas[0].Applications {
+					if a == app {
+						has = true
+					}
+				}
+			}
+			if !has {
+				c.Fail(sig("metadata"), msgs[0], nil, "after the success CEA the connection's metadata does not list the shared application %d (metadata seen %d times)", app, len(metas))
+				return
+			}
+			c.Event("accepted", 1)
+			c.Event("cers", 1)
+		})
+		if leak != "" && !c.Failed() {
+			c.Fail(ev.Sig{"op": "bubble-leak"}, nil, nil, "goroutines left blocked after the scenario: %s", leak)
+		}
+	})
 	rec.Suite("two-type-application", len(seqs)*2, func(c *ev.Case) {
 		cc := c11Case{host: true, realm: true, inband: -1, inband2: -1, apps: seqs[c.I/2], nAddrs: 1, zeroIDs: c.I%2 == 1}
 		c.Class("two-type/%s", al[cc.apps[0]].name)
